@@ -60,8 +60,8 @@ theorem smp_fails (P : Params) (st : St) (n t : Str) (s : OSample) (hh : HdrIs n
   rw [stepLine_smp P st s heof, stepSample_allowed]
   · have : isError (sampleChecks P st.hdr st.grp s false) = true := by
       rcases hchk with h | h
-      · exact sampleChecks_pre P _ _ _ _ n hh.1 (by rw [hh.2.1]; exact h)
-      · exact sampleChecks_post P _ _ _ _ n hh.1 (by rw [hh.2.1]; exact h)
+      · exact sampleChecks_pre P _ _ _ n hh.1 (by rw [hh.2.1]; exact h)
+      · exact sampleChecks_post P _ _ _ n hh.1 (by rw [hh.2.1]; exact h)
     cases hc : sampleChecks P st.hdr st.grp s false with
     | error e => rfl
     | ok gr => rw [hc] at this; cases this
